@@ -17,8 +17,96 @@ theorem good_mkCopy (tbl : UnitTable) (imp : Node) (hi : imp.indent = 0) (q : Qu
   · cases q <;> exact ⟨hk, ⟨v, hv, hcf⟩, hsl, hu, hint⟩
   · cases q <;> simp [mkCopy, qRename, rawValue, hv]
 
-/-- an import: whenever the specification adds the re-rooted selection, the main loop appends
-    exactly the corresponding nodes -/
+theorem setValue_copy (tbl : UnitTable) (c : Node) (hc : CopyOK tbl c) : setValue c = .ok c := by
+  obtain ⟨hi, ⟨hk, ⟨v, hv, hcf⟩, hsl, hu, hint⟩, hraw⟩ := hc
+  have hm : c.kw ≠ .mod := by intro e; rw [e] at hk; simp [isTyped] at hk
+  have hcv : castValue c v = some v := by rw [castValue_eq_conforms c v hsl hk]; exact hcf
+  have hr : c.raw = some v := by rw [hraw, hv]
+  unfold setValue
+  simp only [hr, hm, if_false, hv, hcv]
+  congr 1
+  cases c
+  simp_all
+
+/-- an imported copy whose name already exists: the main loop assigns it to that node -/
+theorem processNode_land (tbl : UnitTable) (env : Env) (c : Node) (hc : CopyOK tbl c) (ns' : List Node)
+    (h : modifyFirst tbl c env.nodes = .ok (some ns')) :
+    processNode tbl env c = .ok { env with parents := [(0, c.name)], nodes := ns' } := by
+  have hsv := setValue_copy tbl c hc
+  obtain ⟨hi, ⟨hk, _, _, hu, _⟩, _⟩ := hc
+  have hg : c.kw ≠ .group := by intro e; rw [e] at hk; simp [isTyped] at hk
+  unfold processNode
+  rw [unitCheck_ok tbl c hk hu]
+  simp only [register_zero env.parents c hi, hg, if_false, hsv, h]
+
+/-- one imported copy: re-created, or assigned to the existing node of that name — exactly
+    what the specification's `sImportOne` does to the abstraction -/
+theorem import_one (tbl : UnitTable) (env : Env) (hgood : ∀ n ∈ env.nodes, Good tbl n) (c : Node)
+    (hc : CopyOK tbl c) (ss' : List SNode)
+    (h : sImportOne tbl (env.nodes.map absN) (absN c) = some ss') :
+    ∃ env', processNode tbl env c = .ok env' ∧ env'.nodes.map absN = ss' ∧
+      (∀ n ∈ env'.nodes, Good tbl n) ∧ env'.sources = env.sources := by
+  unfold sImportOne at h
+  cases hany : (env.nodes.map absN).any (fun m => decide (m.path = (absN c).path)) with
+  | false =>
+    simp only [hany, Bool.false_eq_true, if_false, Option.some.injEq] at h
+    have hfresh : ∀ t ∈ env.nodes, t.name ≠ c.name := by
+      intro t ht e
+      have : (env.nodes.map absN).any (fun m => decide (m.path = (absN c).path)) = true := by
+        rw [List.any_eq_true]
+        exact ⟨absN t, List.mem_map_of_mem ht, by simp [absN, e]⟩
+      rw [this] at hany
+      cases hany
+    refine ⟨_, processNode_copy tbl env c hc hfresh, by simp [← h], ?_, rfl⟩
+    intro n hn
+    simp only [List.mem_append, List.mem_singleton] at hn
+    rcases hn with hn | rfl
+    · exact hgood n hn
+    · exact hc.2.1
+  | true =>
+    simp only [hany, if_true] at h
+    obtain ⟨v, hv, _, hval⟩ := good_conf hc.2.1
+    simp only [hval] at h
+    have hraw : c.raw = some v := by rw [hc.2.2, hv]
+    have hpath : (absN c).path = splitDot c.name := rfl
+    rw [hpath] at h
+    obtain ⟨ns', hmf, habs, hg'⟩ := modifyFirst_abs tbl c v env.nodes ss'
+      (fun t => if t.kw = (absN c).kw then specModF tbl v (absN c).unit t else none)
+      (by
+        intro t _ s' hs
+        by_cases hk : (absN t).kw = (absN c).kw
+        · simp only [hk, if_true] at hs
+          refine ⟨hs, Or.inr ?_⟩
+          have : t.kw = c.kw := hk
+          rw [this]
+        · simp [hk] at hs)
+      hgood hraw h
+    exact ⟨_, processNode_land tbl env c hc ns' hmf, habs, hg', rfl⟩
+
+theorem import_all (tbl : UnitTable) (cs : List Node) (env : Env) (hgood : ∀ n ∈ env.nodes, Good tbl n)
+    (hok : ∀ c ∈ cs, CopyOK tbl c) (ss' : List SNode)
+    (h : sImportAll tbl (env.nodes.map absN) (cs.map absN) = some ss') :
+    ∃ env', cs.foldlM (processNode tbl) env = .ok env' ∧ env'.nodes.map absN = ss' ∧
+      (∀ n ∈ env'.nodes, Good tbl n) ∧ env'.sources = env.sources := by
+  induction cs generalizing env with
+  | nil =>
+    simp only [List.map_nil, sImportAll, Option.some.injEq] at h
+    exact ⟨env, rfl, h, hgood, rfl⟩
+  | cons c rest ih =>
+    simp only [List.map_cons, sImportAll] at h
+    cases h1 : sImportOne tbl (env.nodes.map absN) (absN c) with
+    | none => simp [h1] at h
+    | some s1 =>
+      simp only [h1] at h
+      obtain ⟨env1, hp, habs, hg1, hs1⟩ := import_one tbl env hgood c (hok c (by simp)) s1 h1
+      rw [← habs] at h
+      obtain ⟨env', hrun, habs', hg', hs'⟩ := ih env1 hg1 (fun x hx => hok x (by simp [hx])) h
+      refine ⟨env', ?_, habs', hg', hs'.trans hs1⟩
+      simp only [List.foldlM_cons, hp, bind, Except.bind]
+      exact hrun
+
+/-- an import: whenever the specification accepts it (re-creating the selected nodes below the
+    destination, assigning to nodes that exist there already), the main loop does the same -/
 theorem refine_imp (tbl : UnitTable) (env : Env) (hinv : Inv tbl env) (dest : List Str)
     (source : Option Str) (q : SQuery) (item : Item) (s' : SEnv)
     (hfrag : InFrag (absEnv env) (.imp dest source q))
@@ -31,7 +119,7 @@ theorem refine_imp (tbl : UnitTable) (env : Env) (hinv : Inv tbl env) (dest : Li
   cases hl : sLookup (absEnv env) source with
   | none => simp [hl] at h
   | some ss =>
-    obtain ⟨hne, hnd⟩ := hsel ss hl
+    have hne := hsel ss hl
     obtain ⟨ns, hreq, hss, hgood⟩ := requestNodes_abs tbl env hinv source hws (renderQ q) ss hl
     obtain ⟨hpq, hqq⟩ := parse_render q hq
     have hsrc : '?' ∉ source.getD [] := by
@@ -48,12 +136,10 @@ theorem refine_imp (tbl : UnitTable) (env : Env) (hinv : Inv tbl env) (dest : Li
       | nil => exact absurd hx hselne
       | cons a t => rfl
     simp only [hl, hemp, Bool.false_eq_true, if_false] at h
-    cases hcol : ((select q ss).map (sReroot dest q)).any
-        (fun n => (absEnv env).nodes.any (fun m => decide (m.path = n.path))) with
-    | true => simp [hcol] at h
-    | false =>
-      simp only [hcol, Bool.false_eq_true, if_false, Except.ok.injEq] at h
-      -- the model's request and import
+    cases hall : sImportAll tbl (absEnv env).nodes ((select q ss).map (sReroot dest q)) with
+    | none => simp [hall] at h
+    | some ss' =>
+      simp only [hall, Except.ok.injEq] at h
       have hrq : request env (source.getD [] ++ '?' :: renderQ q) .any = .ok (query ns (toQuery q)) := by
         unfold request
         rw [splitQ_render _ _ hsrc hqq]
@@ -70,55 +156,20 @@ theorem refine_imp (tbl : UnitTable) (env : Env) (hinv : Inv tbl env) (dest : Li
         cases hx : query ns (toQuery q) with
         | nil => exact absurd hx hqs
         | cons a t => rfl
-      -- the copies
       have hok : ∀ c ∈ (query ns (toQuery q)).map (mkCopy (impLine dest source q)), CopyOK tbl c := by
         intro c hcm
         obtain ⟨m, hm, rfl⟩ := List.mem_map.mp hcm
         obtain ⟨n, hn, _, rfl⟩ := (mem_query ns (toQuery q) m).mp hm
         exact good_mkCopy tbl _ rfl (toQuery q) n (hgood n hn)
-      have hpaths : ((query ns (toQuery q)).map (mkCopy (impLine dest source q))).map (fun c => splitDot c.name) =
-          ((select q ss).map (sReroot dest q)).map (·.path) := by
-        rw [← hselabs]
-        simp only [List.map_map]
-        apply List.map_congr_left
-        intro n _
-        rfl
-      have hndn : (((query ns (toQuery q)).map (mkCopy (impLine dest source q))).map (·.name)).Nodup := by
-        have : ((((query ns (toQuery q)).map (mkCopy (impLine dest source q))).map (·.name)).map splitDot).Nodup := by
-          rw [List.map_map]
-          have e : (splitDot ∘ fun c : Node => c.name) = fun c => splitDot c.name := rfl
-          rw [e, hpaths, List.map_map]
-          exact hnd
-        exact nodup_of_map splitDot _ this
-      have hfresh : ∀ c ∈ (query ns (toQuery q)).map (mkCopy (impLine dest source q)),
-          ∀ t ∈ env.nodes, t.name ≠ c.name := by
-        intro c hcm t ht e
-        have hcin : absN c ∈ (select q ss).map (sReroot dest q) := by
-          rw [← hselabs]; exact List.mem_map_of_mem hcm
-        have : ((select q ss).map (sReroot dest q)).any
-            (fun n => (absEnv env).nodes.any (fun m => decide (m.path = n.path))) = true := by
-          rw [List.any_eq_true]
-          refine ⟨absN c, hcin, ?_⟩
-          rw [List.any_eq_true]
-          exact ⟨absN t, List.mem_map_of_mem ht, by simp [absN, absNode, e]⟩
-        rw [this] at hcol
-        cases hcol
-      obtain ⟨env', hrun, hnodes, hsrcs, _⟩ := fold_copies tbl _ env hok hndn hfresh
-      refine ⟨env', ?_, ?_, ?_⟩
+      rw [← hselabs] at hall
+      obtain ⟨env', hrun, habs, hg', hsrcs⟩ := import_all tbl _ env hinv.1 hok ss' hall
+      refine ⟨env', ?_, ?_, ⟨hg', by rw [hsrcs]; exact hinv.2⟩⟩
       · rw [← hc]
         have hk : (impLine dest source q).kw = .imp := rfl
         simp only [step, hk, if_true, himp]
         exact hrun
       · rw [← h]
-        simp only [absEnv, hnodes, hsrcs, List.map_append, hselabs]
-      · refine ⟨?_, ?_⟩
-        · intro n hn
-          rw [hnodes] at hn
-          simp only [List.mem_append] at hn
-          rcases hn with hn | hn
-          · exact hinv.1 n hn
-          · exact (hok n hn).2.1
-        · rw [hsrcs]; exact hinv.2
+        simp only [absEnv, habs, hsrcs]
 
 /-- One statement of the fragment: whenever the specification accepts it, the model's main loop
     accepts its line and ends in a state whose abstraction is the specification's new state. -/
@@ -136,6 +187,7 @@ theorem refine_step (tbl : UnitTable) (env : Env) (hinv : Inv tbl env) (stmt : S
   | tags path l => exact absurd hfrag (by simp [InFrag])
   | option path r u => exact absurd hfrag (by simp [InFrag])
   | description path d => exact absurd hfrag (by simp [InFrag])
+  | decl path kw dims unit => exact absurd hfrag (by simp [InFrag])
 
 /-- the side conditions hold along the specification's run -/
 def FragRun (tbl : UnitTable) : SEnv → List SStmt → Prop
